@@ -118,6 +118,28 @@ def shape_macro_application(nargs, kinds):
     return sh
 
 
+def shape_if_selection(with_else):
+    def sh(B):
+        res = _resolver(B)
+        v, d = B.int("v"), B.bool("defined")
+        tb = B.symlist("then_body")
+        eb = B.symlist("else_body") if with_else else None
+        node = B.inst(A + "IfAstNode", kind="if", file_info=_tok(B), expression=S.expression(B, v, defined=d), block=B.inst(A + "CompoundAstNode", kind="compound", file_info=_tok(B), body=tb),
+                      else_block=B.inst(A + "CompoundAstNode", kind="compound", file_info=_tok(B), body=eb) if with_else else None)
+        return {"node": node, "resolver": res, "defs": B.dict({}), "tok": _tok(B), "v": v, "defined": d, "then_tree": tb, "else_tree": eb}
+    return sh
+
+
+def c10_cases(E):
+    """the .for / .if cases (arbitrary bounds, arbitrary condition, arbitrary sub-trees)"""
+    L, C = loop_specs(E), contracts()
+    cs = [c for c in cases(E) if "generate_for" in c.label or "generate_if" in c.label]
+    for we in (True, False):
+        cs.append(Case(H + "generate_if_selection_contract", f"arbitrary condition and sub-trees, else={we}", shape_if_selection(we), target=[G + "generate_if"], overrides=STUBS, contracts=C,
+                       loop_specs=L, group="expansion", replay=False))
+    return cs
+
+
 def shape_code_gen(B):
     res = _resolver(B)
     return {"ast_nodes": B.symlist("statements"), "resolver": res, "defs": B.dict({})}
@@ -180,7 +202,7 @@ def loop_specs(E):
     ENGINE[0] = E
     L = {}
     L[(G + "_code_gen", 0)] = LoopSpec("_code_gen", H + "inv_expansion", havoc=_havoc_expansion("code"), item=_code_gen_items, modifies=_modifies("code"), ghost=_ghost_expansion)
-    L[(G + "generate_for", 0)] = LoopSpec("generate_for", H + "inv_expansion", havoc=_havoc_expansion("code"), modifies=_modifies("code"), ghost=_ghost_expansion)
+    L[(G + "generate_for", 0)] = LoopSpec("generate_for", H + "inv_expansion", havoc=_havoc_expansion("code"), modifies=_modifies("code"), ghost=_ghost_expansion, step=H + "step_for")
     for g in ("generate_db", "generate_dw", "generate_dl"):
         L[(G + g, 0)] = LoopSpec(g, H + "inv_true", havoc=_havoc_code_only, item=_data_items, modifies=lambda I, st: {st.env["code"].oid})
     return L
